@@ -123,6 +123,26 @@ fn with_file<T>(dir: &std::path::Path, name: &str, data: &[u8], f: impl FnOnce(&
     r
 }
 
+/// what the worker adds to `ok`/`err` for parsers whose result K observes in more detail (ESpec:
+/// depth of the parsed tree / `NestingTooDeep(pos)` / any other error); one token, no blanks
+static DETAIL: Mutex<String> = Mutex::new(String::new());
+
+fn set_detail(d: String) {
+    if let Ok(mut g) = DETAIL.lock() {
+        *g = d;
+    }
+}
+
+/// nesting depth of a parsed ESpec = number of `parse_espec` frames that produced its deepest leaf
+fn espec_depth(e: &cascette_formats::espec::ESpec) -> usize {
+    use cascette_formats::espec::ESpec;
+    match e {
+        ESpec::Encrypted { spec, .. } => 1 + espec_depth(spec),
+        ESpec::BlockTable { chunks } => 1 + chunks.iter().map(|c| espec_depth(&c.spec)).max().unwrap_or(0),
+        _ => 1,
+    }
+}
+
 fn run_parser(name: &str, d: &[u8], tmp: &std::path::Path) -> bool {
     use cascette_formats::CascFormat;
     match name {
@@ -157,7 +177,15 @@ fn run_parser(name: &str, d: &[u8], tmp: &std::path::Path) -> bool {
         "cfgproduct" => cascette_formats::config::ProductConfig::parse(d).is_ok(),
         "cfgkeyring" => cascette_formats::config::KeyringConfig::parse(d).is_ok(),
         "bpsv" => cascette_formats::bpsv::parse(&String::from_utf8_lossy(d)).is_ok(),
-        "espec" => cascette_formats::espec::parse(&String::from_utf8_lossy(d)).is_ok(),
+        "espec" => {
+            let r = cascette_formats::espec::parse(&String::from_utf8_lossy(d));
+            set_detail(match &r {
+                Ok(e) => format!("depth={}", espec_depth(e)),
+                Err(cascette_formats::espec::ESpecError::NestingTooDeep(p)) => format!("deep@{p}"),
+                Err(_) => "other".to_string(),
+            });
+            r.is_ok()
+        }
         "mime" => cascette_protocol::mime_parser::parse_v1_mime_response(d).is_ok(),
         "mimesniff" => cascette_protocol::mime_parser::is_v1_mime_response(d),
         "mimebpsv" => cascette_protocol::mime_parser::parse_v1_mime_to_bpsv(d).is_ok(),
@@ -217,14 +245,16 @@ fn worker_main() {
                 let mut it = line.trim_end().splitn(2, ' ');
                 let name = it.next().unwrap_or("").to_string();
                 let data = unhex(it.next().unwrap_or("-")).unwrap_or_default();
+                set_detail("-".to_string());
                 MAX_REQ.store(0, Ordering::Relaxed);
                 CAP.store(WORKER_CAP, Ordering::Relaxed);
                 let r = std::panic::catch_unwind(std::panic::AssertUnwindSafe(|| run_parser(&name, &data, &tmp)));
                 CAP.store(0, Ordering::Relaxed);
                 let m = MAX_REQ.load(Ordering::Relaxed);
+                let det = DETAIL.lock().map(|g| g.clone()).unwrap_or_else(|_| "-".into());
                 let resp = match r {
-                    Ok(true) => format!("ok {m} -"),
-                    Ok(false) => format!("err {m} -"),
+                    Ok(true) => format!("ok {m} - {det}"),
+                    Ok(false) => format!("err {m} - {det}"),
                     Err(_) => format!("panic {m} {}", LAST_PANIC.lock().map(|g| g.clone()).unwrap_or_default()),
                 };
                 writeln!(out, "{resp}").ok();
@@ -248,6 +278,7 @@ struct Obs {
     class: &'static str, // ok err panic abort timeout
     max_alloc: usize,
     site: String, // panic file / "alloc" for a refused allocation / "-"
+    detail: String, // parser-specific detail of an ok/err result ("-" when there is none)
 }
 
 impl Worker {
@@ -314,7 +345,7 @@ impl Pool {
         if sent.is_err() {
             w.kill();
             self.w = None;
-            return Obs { class: "abort", max_alloc: 0, site: "spawn".into() };
+            return Obs { class: "abort", max_alloc: 0, site: "spawn".into(), detail: "-".into() };
         }
         match w.rx.recv_timeout(self.timeout) {
             Ok(l) => {
@@ -324,12 +355,17 @@ impl Pool {
                     Some("err") => "err",
                     _ => "panic",
                 };
-                Obs { class, max_alloc: t.get(1).and_then(|x| x.parse().ok()).unwrap_or(0), site: t.get(2).unwrap_or(&"-").to_string() }
+                Obs {
+                    class,
+                    max_alloc: t.get(1).and_then(|x| x.parse().ok()).unwrap_or(0),
+                    site: t.get(2).unwrap_or(&"-").to_string(),
+                    detail: t.get(3).unwrap_or(&"-").to_string(),
+                }
             }
             Err(std::sync::mpsc::RecvTimeoutError::Timeout) => {
                 w.kill();
                 self.w = None;
-                Obs { class: "timeout", max_alloc: 0, site: "-".into() }
+                Obs { class: "timeout", max_alloc: 0, site: "-".into(), detail: "-".into() }
             }
             Err(std::sync::mpsc::RecvTimeoutError::Disconnected) => {
                 // the worker died: refused allocation (handle_alloc_error → abort) or stack overflow
@@ -339,8 +375,8 @@ impl Pool {
                 w.kill();
                 self.w = None;
                 match refused {
-                    Some(n) => Obs { class: "abort", max_alloc: n, site: "alloc".into() },
-                    None => Obs { class: "abort", max_alloc: 0, site: "signal".into() },
+                    Some(n) => Obs { class: "abort", max_alloc: n, site: "alloc".into(), detail: "-".into() },
+                    None => Obs { class: "abort", max_alloc: 0, site: "signal".into(), detail: "-".into() },
                 }
             }
         }
@@ -355,6 +391,7 @@ enum Edit {
     Trunc(usize),
     Put(usize, Vec<u8>), // overwrite at offset (only the part that fits is written)
     App(Vec<u8>),
+    Rep(usize, Vec<u8>), // append the bytes n times (deep nesting families stay short in req lines and replays)
 }
 
 fn apply(seed: &[u8], edits: &[Edit]) -> Vec<u8> {
@@ -370,6 +407,12 @@ fn apply(seed: &[u8], edits: &[Edit]) -> Vec<u8> {
                 }
             }
             Edit::App(b) => d.extend_from_slice(b),
+            Edit::Rep(n, b) => {
+                d.reserve(n * b.len());
+                for _ in 0..*n {
+                    d.extend_from_slice(b);
+                }
+            }
         }
     }
     d
@@ -385,6 +428,7 @@ fn edits_text(edits: &[Edit]) -> String {
             Edit::Trunc(n) => format!("t{n}"),
             Edit::Put(o, b) => format!("p{o}:{}", hex(b)),
             Edit::App(b) => format!("a{}", hex(b)),
+            Edit::Rep(n, b) => format!("r{n}:{}", hex(b)),
         })
         .collect::<Vec<_>>()
         .join(",")
@@ -404,6 +448,16 @@ fn parse_edits(s: &str) -> Option<Vec<Edit>> {
                 v.push(Edit::Put(o.parse().ok()?, unhex(h)?));
             }
             "a" => v.push(Edit::App(unhex(rest)?)),
+            "r" => {
+                let (n, h) = rest.split_once(':')?;
+                let n: usize = n.parse().ok()?;
+                let b = unhex(h)?;
+                // a replay line is not trusted to be small
+                if n.saturating_mul(b.len()) > 64 << 20 {
+                    return None;
+                }
+                v.push(Edit::Rep(n, b));
+            }
             _ => return None,
         }
     }
@@ -490,12 +544,21 @@ fn allowance(parser: &str, d: &[u8]) -> usize {
     }
 }
 
+/// response of an `espec` line: the worker's detail behind ok/err, the bare class otherwise
+fn espec_resp(obs: &Obs) -> String {
+    match obs.class {
+        "ok" | "err" => format!("{} {}", obs.class, obs.detail),
+        c => c.to_string(),
+    }
+}
+
 struct Ctx {
     s: Session,
     pool: Pool,
     seeds: BTreeMap<String, Vec<u8>>,
     emitted: std::collections::HashSet<String>,
     quick: bool,
+    follow: Vec<String>, // follow-up request lines (`espec`, `lhdr`) the last `case` emitted by itself
 }
 
 impl Ctx {
@@ -509,6 +572,7 @@ impl Ctx {
     /// run one case: parser on seed+edits. Emits the K line, evaluates O.
     fn case(&mut self, parser: &str, seed_id: &str, edits: &[Edit], kind: &str) -> Obs {
         let et = edits_text(edits);
+        self.follow.clear();
         let key = format!("{parser} {seed_id} {et}");
         let data = apply(&self.seeds[seed_id], edits);
         let obs = self.pool.run(parser, &data);
@@ -551,7 +615,17 @@ impl Ctx {
                 Some(h) => format!("blte={}", h.blte_size()),
                 None => "none".to_string(),
             };
-            self.s.line(&format!("lhdr {}", hex(&data)), &r);
+            let l = format!("lhdr {}", hex(&data));
+            self.s.line(&l, &r);
+            self.follow.push(l);
+        }
+        if parser == "espec" && data.is_ascii() {
+            // result-level tie of the ESpec grammar model: depth of the parsed tree, or the position at
+            // which the nesting guard refused, or "other". Self-contained line (edits of the empty input).
+            let et0 = if seed_id == "empty" { et.clone() } else { edits_text(&[Edit::App(data.clone())]) };
+            let l = format!("espec {et0}");
+            self.s.line(&l, &espec_resp(&obs));
+            self.follow.push(l);
         }
         // non-trivial: a mutated/spliced/truncated input (not the pristine seed) that is new
         let nontrivial = !edits.is_empty() && self.emitted.insert(key.clone());
@@ -1479,7 +1553,7 @@ fn main() {
     let args = Args::parse();
     quiet_panics();
     let timeout = Duration::from_secs(if args.thorough() { 20 } else { 10 });
-    let mut c = Ctx { s: Session::new(&args.out), pool: Pool { w: None, timeout, respawns: 0 }, seeds: BTreeMap::new(), emitted: Default::default(), quick: !args.thorough() };
+    let mut c = Ctx { s: Session::new(&args.out), pool: Pool { w: None, timeout, respawns: 0 }, seeds: BTreeMap::new(), emitted: Default::default(), quick: !args.thorough(), follow: vec![] };
     c.s.rule = "a case is non-trivial when the parser ran on a seed with at least one edit (field splice, truncation, byte mutation) not run before".into();
     let mut rng = Rng::new(args.seed);
 
@@ -1502,6 +1576,31 @@ fn main() {
                 ["run", parser, sid, et, ..] if PARSERS.contains(parser) && c.seeds.contains_key(*sid) => match parse_edits(et) {
                     Some(e) => {
                         c.case(parser, sid, &e, "replay");
+                    }
+                    None => c.s.line(&l, "bad-op"),
+                },
+                // follow-up lines of a `run` are re-emitted by `case`; replayed on their own they are
+                // self-contained
+                ["espec", _] | ["lhdr", _] if c.follow.contains(&l) => c.follow.retain(|x| x != &l),
+                ["espec", et] => match parse_edits(et) {
+                    Some(e) => {
+                        let data = apply(&[], &e);
+                        if data.is_ascii() {
+                            let obs = c.pool.run("espec", &data);
+                            c.s.line(&l, &espec_resp(&obs));
+                        } else {
+                            c.s.line(&l, "nonascii");
+                        }
+                    }
+                    None => c.s.line(&l, "bad-op"),
+                },
+                ["lhdr", h] => match unhex(h) {
+                    Some(d) => {
+                        let r = match cascette_client_storage::storage::local_header::LocalHeader::from_bytes(&d) {
+                            Some(h) => format!("blte={}", h.blte_size()),
+                            None => "none".to_string(),
+                        };
+                        c.s.line(&l, &r);
                     }
                     None => c.s.line(&l, "bad-op"),
                 },
